@@ -78,7 +78,10 @@ def r12b(fb, rep):
         rep.violation(R, "run-expr-shape", "run_expr_async lost Executable::run_expr / T::from_value", b.where())
         return
     es = flow.sources(b, runs[0].args[-1])
-    if any(s[0] == "call" and s[1] == MK for s in es) and ("agg", "core::option::Option", "Some") in es:
+    ap = runs[0].args[-1]
+    defs = b.defs_of(ap[1][0]) if ap[0] in ("c", "m") and not ap[1][1] else []
+    direct_some = len(defs) == 1 and defs[0][0] == "assign" and defs[0][3][0] == "agg" and defs[0][3][1][1:] == ["core::option::Option", "Some"]
+    if any(s[0] == "call" and s[1] == MK for s in es) and direct_some:
         rep.ok(R, "run_expr_async: Some(&T::make_type(vm)) is the expected type of the compile pipeline")
     else:
         rep.violation(R, "run-expr-unchecked", "run_expr_async does not pass T::make_type as the expected type", runs[0].where())
